@@ -862,7 +862,7 @@ func (m *Model) termBound(h *ssa.Function, depth int) int {
 			if val, isConst, isSt := m.claimStore(in); isSt && isConst && !val {
 				n++
 				decided := false
-				for _, l := range append(m.controlConds(in), m.GuardsAt(in)...) {
+				for _, l := range append(m.controlCondsDeep(in, 0), m.GuardsAt(in)...) {
 					if m.isTermIdentityLit(l) {
 						for _, a := range l.S.Args {
 							if a.V == ssa.Value(p) {
